@@ -1222,9 +1222,14 @@ pub mod enc {
         ZstdRaw,
         /// Zstandard frame produced by libzstd's streaming encoder
         Zstd,
+        /// libzstd streaming encoder with the content checksum enabled and a flush every 7 input
+        /// bytes (many small blocks, no content size in the frame header)
+        ZstdChecksumBlocks,
+        /// libzstd one-shot encoder (frame header carries the content size)
+        ZstdSized,
     }
 
-    pub const COMPS: [Comp; 5] = [Comp::None, Comp::Lz4Literal, Comp::Lz4, Comp::ZstdRaw, Comp::Zstd];
+    pub const COMPS: [Comp; 7] = [Comp::None, Comp::Lz4Literal, Comp::Lz4, Comp::ZstdRaw, Comp::Zstd, Comp::ZstdChecksumBlocks, Comp::ZstdSized];
 
     pub fn lz4_literal_block(data: &[u8]) -> Vec<u8> {
         let mut out = Vec::new();
@@ -1276,6 +1281,17 @@ pub mod enc {
                 e.write_all(data).expect("zstd");
                 Some(e.finish().expect("zstd"))
             }
+            Comp::ZstdChecksumBlocks => {
+                use std::io::Write;
+                let mut e = zstd::stream::write::Encoder::new(Vec::new(), 1).expect("zstd");
+                e.include_checksum(true).expect("zstd");
+                for piece in data.chunks(7) {
+                    e.write_all(piece).expect("zstd");
+                    e.flush().expect("zstd");
+                }
+                Some(e.finish().expect("zstd"))
+            }
+            Comp::ZstdSized => Some(zstd::bulk::compress(data, 3).expect("zstd")),
         };
         match body {
             // "If Compressed Length is zero, Chunk Data contains Uncompressed Length bytes"
